@@ -312,7 +312,9 @@ def main(argv):
     if argv[1] == "--replay":
         rp = json.load(open(argv[2]))
         pid = rp["property"]
-        tier = "quick"
+        # generation is deterministic in (seed, tier): the run that produced the file is repeated
+        tier = rp.get("tier", "quick")
+        os.environ["VERIF_SEED"] = str(rp.get("seed", 0))
         os.environ["VERIF_REPLAY"] = os.path.abspath(argv[2])
     else:
         pid = argv[1]
